@@ -72,6 +72,12 @@ theorem fact_http_client :
 theorem fact_iam_strictmode : Facts.C20.authStrictModeAssignments = ["config.Strictmode"] ∧
     Facts.C20.iamNewClientArgs.contains "auth.strictMode" = true := by decide
 
+/-- `client.StrictMode = serverConfig.Strictmode` is unconditional: a top-level statement with no `return` before it, in a
+    function the HTTP engine's `Configure` calls first thing — no other option (cache size, …) can skip it; the model's
+    `Running.clientStrict` therefore depends on `strict` alone -/
+theorem fact_client_strict_unconditional : Facts.C20.clientStrictAssignmentUnconditional = true ∧
+    Facts.C20.clientStrictAssignments = ["serverConfig.Strictmode"] := by decide
+
 /-- the redirect check is one package-level function that reads `client.StrictMode` when a redirect arrives — not a
     value captured when the client was built (clients are built before the HTTP engine, configured last, sets the flag) -/
 theorem fact_redirect_check_reads_global : Facts.C20.checkRedirectReadsGlobalAtCallTime = true := by decide
